@@ -165,6 +165,12 @@ def make_lf(model, tree_key, aln_dict, **kw):
     return lf
 
 
+def TREES_TIPS(tree_key):
+    from cogent3 import make_tree
+
+    return make_tree(TREES[tree_key]).get_tip_names()
+
+
 def rate_vectors(params, values):
     """the lattice of rate values for a parameter list: full product for <= 3 parameters, otherwise
     len(values)+1 cyclic vectors (stated cap: the product would be |values|^11 for GN)"""
@@ -205,6 +211,8 @@ def projection_case(acc, case):
         cls = "model nesting, scoped null"
     if case.get("null_const"):
         cls += ", rates held constant in the nested model"
+    if case.get("alt_time_het"):
+        cls += ", time-heterogeneous alternative"
     try:
         null = make_lf(case["null"], case["tree"], aln)
         set_null(null, case["null"], rates, mp, LENGTHS[case["lengths"]], case.get("null_scope"), const=case.get("null_const", False))
@@ -221,6 +229,10 @@ def projection_case(acc, case):
         for p, blocks in (case.get("alt_scope") or {}).items():
             for edges in blocks:
                 alt.set_param_rule(p, edges=list(edges))
+        if case.get("alt_time_het") == "max":
+            alt.set_time_heterogeneity(is_independent=True)
+        elif case.get("alt_time_het"):
+            alt.set_time_heterogeneity(edge_sets=[dict(edges=list(case["alt_time_het"]))], is_independent=False)
     except Exception as e:  # noqa: BLE001 - harness could not build the alternative: visible, not judged
         acc.count("alt_not_constructible")
         acc.outcome(("alt failed", type(e).__name__))
@@ -259,6 +271,11 @@ def run_pairs(spec, acc):
         for k, rates in enumerate(rate_vectors(params, b["values"])):
             projection_case(acc, {"part": "pairs", "null": null, "alt": alt, "alt_kw": alt_kw, "tree": tree, "aln": aln,
                                   "codon": codon, "rates": rates, "mprobs": mp, "lengths": lengths})
+            if k % 3 == 2 and not codon:
+                tips = sorted(TREES_TIPS(tree))
+                for th in ("max", tips[:2]):
+                    projection_case(acc, {"part": "pairs", "null": null, "alt": alt, "alt_kw": alt_kw, "tree": tree, "aln": aln,
+                                          "codon": codon, "rates": rates, "mprobs": mp, "lengths": lengths, "alt_time_het": th})
             if params and k % 3 == 1:
                 projection_case(acc, {"part": "pairs", "null": null, "alt": alt, "alt_kw": alt_kw, "tree": tree, "aln": aln,
                                       "codon": codon, "rates": rates, "mprobs": mp, "lengths": lengths, "null_const": True})
